@@ -49,6 +49,14 @@ def cases(tier, seed):
             if pname == "rank1":
                 continue
             yield {"def": d, "P": P, "Pname": pname, "seed": seed, "points": 3 if tier == "quick" else 8}
+    # "all positive per-reading noise assignments": a precise sensor (variances 2^-23 .. 2^-27) on a correspondingly small prior
+    for d in defs[:27:3]:
+        n = len(d["state"])
+        tiny = dict(d, name=d["name"] + "-tinynoise",
+                    snoise=[[k_, [[r_, 2.0 ** -(23 + 2 * i_)] for i_, (r_, v_) in enumerate(rs_)]] for k_, rs_ in d["snoise"]])
+        dense = cov_menu(n, "quick")[2][1]
+        yield {"def": tiny, "P": [[v_ * 2.0 ** -20 for v_ in r_] for r_ in dense], "Pname": "dense*2^-20", "seed": seed, "points": 2,
+               "abs_scale": 2.0 ** -20}
 
 
 def eval_case(case):
@@ -96,6 +104,9 @@ def eval_case(case):
                 xp, Pp, innov, S, nis = ref.update(key, full, Pm, z)
                 scaleP = float(max(R.maxabs(Pm), 1))
                 scaleS = float(max(R.maxabs(S), 1))
+                if case.get("abs_scale"):  # tiny prior/noise: compare relative to THEIR magnitude, not to 1
+                    scaleP = float(R.maxabs(Pm))
+                    scaleS = float(R.maxabs(S))
                 for kf, ekf in ekfs.items():
                     if kf is not None and float(nis) > kf * sqrt(2 * m) + m - 1e-6:
                         gated += 1
